@@ -354,9 +354,11 @@ func init() {
 			}
 		}
 		// values whose encode fails part-way: a failed encode in one goroutine must not leak into anybody's later encode
+		nFail := 0
 		for _, t := range schema.Types {
 			for i, op := range t.fieldOps() {
-				if op.K == "nums" && op.CW == 2 && len(items) < 4000 {
+				if op.K == "nums" && op.CW == 2 && nFail < 3 {
+					nFail++
 					v := g.msg(t.ID, true, 0)
 					l := &Val{K: 'N'}
 					for k := 0; k < 65536; k++ {
@@ -376,6 +378,7 @@ func init() {
 				}
 			}
 		}
+		begin("")
 		workers := 16
 		loops := 3
 		if thorough {
